@@ -133,7 +133,48 @@ func ws(r *rng) string {
 }
 
 // precedence-aware rendering: 0 = top / inside parens, 1 = operand of ||, 2 = operand of &&, 3 = operand of !
-func renderExprV(r *rng, c ast.Child, prec int) string {
+// nestNeed: the nesting budget the parser needs for c rendered in a context of precedence prec with only the
+// parentheses the precedences demand ('(' costs 1, '!' costs 1, an atom needs 1)
+func nestNeed(c ast.Child, prec int) int {
+	switch c := c.(type) {
+	case *ast.InvertResult:
+		if _, ok := c.Child.(*ast.SubjectSetRewrite); ok {
+			return 2 + nestNeed(c.Child, 0)
+		}
+		return 1 + nestNeed(c.Child, 3)
+	case *ast.SubjectSetRewrite:
+		p := 1
+		if c.Operation == ast.OperatorAnd {
+			p = 2
+		}
+		if len(c.Children) == 1 {
+			p = 3
+		}
+		inner := 1
+		for _, ch := range c.Children {
+			pp := p
+			if len(c.Children) == 1 {
+				pp = map[bool]int{true: 2, false: 1}[c.Operation == ast.OperatorAnd]
+			}
+			if n := nestNeed(ch, pp); n > inner {
+				inner = n
+			}
+		}
+		if p < prec {
+			return 1 + inner
+		}
+		return inner
+	}
+	return 1
+}
+
+// renderExprV: used = nesting budget already spent on the way to this node; redundant parentheses are only added while
+// the whole expression stays within the parser's nesting limit (a deeper one is legitimately rejected)
+func renderExprV(r *rng, c ast.Child, prec int, usedOpt ...int) string {
+	used := 0
+	if len(usedOpt) > 0 {
+		used = usedOpt[0]
+	}
 	paren := func(s string) string { return "(" + ws(r) + s + ws(r) + ")" }
 	var s string
 	myPrec := 3
@@ -161,9 +202,9 @@ func renderExprV(r *rng, c ast.Child, prec int) string {
 		}
 	case *ast.InvertResult:
 		if _, ok := c.Child.(*ast.SubjectSetRewrite); ok {
-			s = "!" + paren(renderExprV(r, c.Child, 0))
+			s = "!" + paren(renderExprV(r, c.Child, 0, used+2))
 		} else {
-			s = "!" + renderExprV(r, c.Child, 3)
+			s = "!" + renderExprV(r, c.Child, 3, used+1)
 		}
 	case *ast.SubjectSetRewrite:
 		op, p := " || ", 1
@@ -171,16 +212,29 @@ func renderExprV(r *rng, c ast.Child, prec int) string {
 			op, p = " && ", 2
 		}
 		myPrec = p
-		var parts []string
-		for _, ch := range c.Children {
-			parts = append(parts, renderExprV(r, ch, p))
-		}
-		if len(parts) == 1 {
+		if len(c.Children) == 1 {
 			myPrec = 3
 		}
+		// decide about the parentheses around this node BEFORE rendering the children, so that they know what is spent
+		wrap := myPrec < prec
+		if !wrap && r.chance(1, 8) && used+1+nestNeed(c, 0) <= 10 {
+			wrap = true
+		}
+		inner := used
+		if wrap {
+			inner++
+		}
+		var parts []string
+		for _, ch := range c.Children {
+			parts = append(parts, renderExprV(r, ch, p, inner))
+		}
 		s = strings.Join(parts, ws(r)+strings.TrimSpace(op)+ws(r))
+		if wrap {
+			return paren(s)
+		}
+		return s
 	}
-	if myPrec < prec || r.chance(1, 8) {
+	if r.chance(1, 8) && used+1+nestNeed(c, 0) <= 10 {
 		return paren(s)
 	}
 	return s
